@@ -439,6 +439,12 @@ func (op *Op) Send(sender string, ev *workerpb.Event) error {
 	return op.O.HandleEvent(context.Background(), sender, ev)
 }
 
+// SendCtx is Send with the request's context: the server cancels it when the
+// calling source runner goes away while the request is being handled.
+func (op *Op) SendCtx(ctx context.Context, sender string, ev *workerpb.Event) error {
+	return op.O.HandleEvent(ctx, sender, ev)
+}
+
 func Keyed(key []byte, sc Script, ts int64) *workerpb.Event {
 	return &workerpb.Event{Event: &workerpb.Event_KeyedEvent{KeyedEvent: &handlerpb.KeyedEvent{
 		Key: key, Value: sc.Marshal(), Timestamp: timestamppb.New(time.Unix(0, ts))}}}
